@@ -100,11 +100,12 @@ def enc_all(instrs):
     return out
 
 
-def gen_proof_stream(rng, length=25, phase='proof', mach=None):
+def gen_proof_stream(rng, length=25, phase='proof', mach=None, lenient_ok=False):
     """random walk steered by the Python mirror so that most instructions are accepted; returns
     (instrs, mach).  With small probability an unsteered (possibly rejecting) instruction is emitted."""
     m = mach or pm.Mach()
     out = []
+    went_lenient = False
     for _ in range(length):
         cands = []
         S = m.stack
@@ -144,6 +145,26 @@ def gen_proof_stream(rng, length=25, phase='proof', mach=None):
                 m2.step(ins, phase)
                 m = m2
                 out.append(ins)
+            except pm.SideRej:
+                # a side condition fails.  Sometimes go on AS IF a weakened checker had accepted (lenient mirror): a checker
+                # that lost the side condition is then driven on to a conclusion the oracle can refute
+                if lenient_ok and rng.random() < 0.5:
+                    pm.LENIENT = True
+                    try:
+                        m2 = m.copy()
+                        m2.step(ins, phase)
+                        m = m2
+                        out.append(ins)
+                        went_lenient = True
+                        continue
+                    except Exception:
+                        break
+                    finally:
+                        pm.LENIENT = False
+                if rng.random() < 0.05:
+                    out.append(ins)
+                    return out, None
+                break
             except pm.Rej:
                 if rng.random() < 0.03:
                     out.append(ins)     # keep a rejecting instruction now and then
